@@ -124,6 +124,16 @@ open Sig Sig.Search
     (fun b => s!"header={repr b}")
   report "SignalGen.Eq.Chan" "C.Channels/Capacity/Length" n w
 
+-- ------------------------------------------------------------------------------------------- SignalGen.Eq.Pool
+#eval do
+  let pools : List Pool := [0, 1, 2, 3].flatMap fun ch => [0, 1, 2, 3, 4, 7].flatMap fun cap => (List.range (cap + 2)).map fun len =>
+    ({ kind := Kind.i16, ch := ch, len := len, cap := cap, free := [] } : Pool)
+  let cases := pools.flatMap fun p => bufs.map fun b => (p, b)
+  let (n, w) := firstBad cases
+    (fun (p, b) => !resEq (Gen.PoolAllocator_Put heap0 b (p.ch : Int) (p.len : Int) (p.cap : Int)) ((p.put heap0 b).bind fun h' b' => .ok h' (b', ())))
+    (fun (p, b) => s!"pool ch={p.ch} len={p.len} cap={p.cap} header={repr b}")
+  report "SignalGen.Eq.Pool" "Put/clear" n w
+
 -- ------------------------------------------------------------------------------------------- SignalGen.Eq.Index / ChanLen
 #eval do
   let cases := [0, 1, 2, 3, 5, 32].flatMap fun ch => idx.flatMap fun c => idx.map fun i => (ch, c, i)
